@@ -1764,6 +1764,8 @@ theorem tokLoop_sim_first {cfg cfg' : Cfg} (hc : cfg'.chain = cfg.chain) (hm : c
       cases hh
       omega))
     all_goals (
+      have hl'lo : s.line ≤ l' := by omega
+      clear hl's
       have hchain := ‹runChain _ _ _ _ = _›
       have hafter := ‹afterChain _ _ _ = _›
       have hind := ‹BState.lineIndent _ _ = _›
